@@ -24,7 +24,7 @@ CHECKS = {
     "C06": dict(engine="core(api)", technique=PBT + "generated attachment programs with arbitrary Unicode; oracle: each attachment exactly once on its target record(s), nowhere else, values byte-identical, per-route order preserved",
                 text="Exploration: 72k programs per quick run, both configurations, flush() cycles at any operation boundary between attachment and finish.",
                 note="Must/may classification follows the property's own precondition. Shapes of the known dup-unit finding are excluded by construction and counted."),
-    "C07": dict(engine="core(api+sched)", technique=PBT + "generated API call sequences in every listed state (no reporter, no-op/unsampled/empty parents, re-entrant closures, full queue, exceeded limits, thread-local teardown); oracle: every call returns (catch_unwind per call; process abort = violation; an operation that needed another vthread deadlocks the scheduler)",
+    "C07": dict(engine="core(api+sched)", technique=PBT + "generated API call sequences in every listed state (no reporter, no-op/unsampled/empty parents, re-entrant closures, full queue, exceeded limits, thread-local teardown), incl. calls made while the thread unwinds from an unrelated panic, lazy argument iterators and the text decoders on near-valid headers; oracle: every call returns (catch_unwind per call; process abort = violation; an operation that needed another vthread deadlocks the scheduler)",
                 text="Exploration: ~19k in-process sequences (incl. re-entrant mini programs inside property/event closures), 4.8k sequences without a reporter, 4.8k scheduled sequences with ring-fill episodes, limit bursts and 1200 thread-local-teardown cases on fresh OS threads per quick run.",
                 note="Debug assertions are ON in the harness profile (as in the repository's own dev-profile suite). Blocking is detected only as scheduler deadlock / watchdog expiry."),
     "C08": dict(engine="core(sched)", technique=PBT + "generated trace/thread histories + schedules; oracle: collector_stats() zero at quiescence and bounded by in-flight traces/live threads at every idle point; plus constructed overlapping real flush() calls (traces alive across the parked cycle) with the counters read afterwards",
@@ -54,7 +54,7 @@ CHECKS = {
     "C17": dict(engine="core(api)", technique=PBT + "generated local-span forests pushed to N parents and converted; oracle: copies identical up to trace/root parent, to_span_records equals a pushed copy, open spans end inside the collect() bracket",
                 text="Exploration: 72k programs per quick run, both configurations (640k thorough).",
                 note="Durations compared exactly within a batch, +-2ns across batches; brackets read the library's own monotonic clock (fastant)."),
-    "C18": dict(engine="core(api)", technique=PBT + "generated programs with busy-wait spins; oracle: durations inside harness-side monotonic brackets, begin times inside the run's wall-clock window, exact nesting of local spans and events",
+    "C18": dict(engine="core(api+sched)", technique=PBT + "generated programs with busy-wait spins, at operation granularity and under the hooked scheduler (spans stamped while a collector cycle is between two queues); oracle: durations inside harness-side monotonic brackets, begin times inside the run's wall-clock window, exact nesting of local spans and events",
                 text="Exploration: 24k programs per quick run, both configurations (640k thorough).",
                 note="Brackets use fastant::Instant (the library's clock); wall-clock window +-50ms."),
 }
